@@ -73,7 +73,8 @@ def inject(deck, f):
         n = int(var)
         s['p'] = s['p'][:n] if n < len(s['p']) else list(s['p']) + [s.get('d', 1)] * (n - len(s['p']))
     elif cls == 'mnemonic':
-        d['surfs'][a - 1]['k'] = var
+        # 'suffix': the card's own three-letter mnemonic with one more letter (sphe, rppe, c/ze): no mnemonic either
+        d['surfs'][a - 1]['k'] = (d['surfs'][a - 1]['k'] + 'e') if var == 'suffix' else var
     elif cls == 'facet':
         leaves(d['cells'][a - 1]['geom'])[b - 1][2] = int(var)
     elif cls == 'tr_m':
